@@ -4,6 +4,7 @@ import (
 	"bytes"
 	"errors"
 	"fmt"
+	smlog "github.com/godaddy/asherah/go/securememory/log"
 	"io"
 	"runtime/debug"
 	"strings"
@@ -95,11 +96,21 @@ type trackedSecret struct {
 	rdPos  int
 }
 
+// quietLogger drops every debug line unrendered (the secure-memory log has no way to uninstall a logger).
+type quietLogger struct{}
+
+func (quietLogger) Debugf(string, ...interface{}) {}
+
 func runC11(t *simrt.Tape, o Opts) Outcome {
 	which := t.Choose(2, "impl")
 	concurrent := t.Choose(2, "concurrent") == 1
 	// one run in 24: a reader that outlives the caller's handle on the secret, under the real collector
-	readerOnly := !concurrent && t.Choose(24, "reader-outlives-handle") == 1
+	readerOnly := !concurrent && t.Choose(12, "reader-outlives-handle") == 1
+	// the application may have wired up the secure-memory debug log: its lines are rendered
+	if t.Choose(3, "debug-log") == 1 {
+		smlog.SetLogger(renderLogger{})
+		defer smlog.SetLogger(quietLogger{})
+	}
 	cfg := schedCfg(t, o, concurrent)
 	var st Stats
 	st.Oracle = map[string]int{}
@@ -434,6 +445,16 @@ func runC11(t *simrt.Tape, o Opts) Outcome {
 			prog = append(prog, fmt.Sprintf("%d readers x %d reads || %d closers", nr, reads, nc))
 			closeReturned := false
 			var tasks []*simrt.Task
+			var closers []*simrt.Task
+			// closeParked: a Close has marked the secret as closing and waits for the readers inside
+			closeParked := func() bool {
+				for _, c := range closers {
+					if c != nil && c.BlockedAt() == "Cond.Wait" {
+						return true
+					}
+				}
+				return false
+			}
 			for i := 0; i < nr; i++ {
 				nest := t.Choose(2, "r.nest") == 1
 				leave := cbLeave(t)
@@ -442,10 +463,15 @@ func runC11(t *simrt.Tape, o Opts) Outcome {
 					for k := 0; k < reads; k++ {
 						guard("concurrent WithBytes", func() {
 							var err error
+							lateArrival := closeParked()
 							callbackUnwinds(func() {
 								err = ts.sec.WithBytes(func(b []byte) error {
 									ts.inside++
 									defer func() { ts.inside-- }()
+									count(st.Oracle, "no-admission-behind-a-waiting-close")
+									if lateArrival {
+										violate("admitted-behind-waiting-close/"+im.name, "%s: an access that began while a Close was already waiting for the readers inside was admitted instead of refused", im.name)
+									}
 									if closeReturned {
 										violate("reader-after-close-returned/"+im.name, "%s: a reader callback started although a Close had already returned", im.name)
 									}
@@ -472,7 +498,9 @@ func runC11(t *simrt.Tape, o Opts) Outcome {
 				}))
 			}
 			for i := 0; i < nc; i++ {
-				tasks = append(tasks, s.Go("closer", func() {
+				closers = append(closers, nil)
+				ci := len(closers) - 1
+				closers[ci] = s.Go("closer", func() {
 					debug.SetPanicOnFault(true)
 					guard("concurrent Close", func() {
 						if err := ts.sec.Close(); err != nil {
@@ -484,7 +512,8 @@ func runC11(t *simrt.Tape, o Opts) Outcome {
 						}
 						closeReturned = true
 					})
-				}))
+				})
+				tasks = append(tasks, closers[ci])
 			}
 			for _, tk := range tasks {
 				s.Join(tk)
